@@ -123,7 +123,7 @@ def api_flag_prov(ctx):
         r0 = next(iter(rs))
         _rec(d, "State::new", "anchored_match: false" in r0 and "history: History::new()" in r0 and "capture_state: CaptureState::new()" in r0, "State::new must start unanchored with an empty history and capture state; found %s" % r0[:200], sn.loc())
     out = _emit(d)
-    NULLABLE = ["C16", "C06", "C04", "C15", "C13", "C02", "C03", "C18"]
+    NULLABLE = ["C16", "C06", "C04", "C15", "C13", "C02", "C03", "C18", "C17"]  # C17: the same results from every API under both dialects
     NOT_COMPILE_ONLY = [p_ for p_ in ("C%02d" % k for k in range(1, 21)) if p_ != "C07"]
     for i_ in out:
         if i_.key == "new":
